@@ -159,8 +159,9 @@ def run_unit(unit, rlimit=30, only_fn=None):
             d["rlimit"] += f.get("rlimit", 0)
     r.smt_ms = out["times-ms"]["smt"].get("smt-run", 0)
     r.errors = parse_errors(p.stderr, gen)
-    if "error[E" in p.stderr and not r.functions:
-        r.status, r.reason = "undecided", "rustc error in generated file: " + first_error(p.stderr)
+    if not r.functions and re.search(r"^error", p.stderr, re.M):
+        # syntax / type error in the generated file: the injected annotations no longer fit the code
+        r.status, r.reason = "undecided", "verus could not process the generated file: " + first_error(p.stderr)
         return r
     canaries = {f["canary"] for f in meta["functions"] if f.get("canary")}
     for e in r.errors:
@@ -307,14 +308,10 @@ def main():
     # bounded stand-ins and witness search on the real compiled crate
     rac = None
     rac_info = {}
-    need_rac = (not a.no_rac) and any(UNITS[u].get("rac") for u in units)
-    if need_rac or ((violations or unresolved or undecided) and not a.no_rac):
-        try:
-            import rac_driver
-            rac = rac_driver.run(prop, tier, seed, want_witness=bool(violations or unresolved or undecided))
-            rac_info = rac
-        except ImportError:
-            rac = None
+    if not a.no_rac:
+        import rac_driver
+        rac = rac_driver.run(prop, tier, seed, want_witness=bool(violations or unresolved or undecided))
+        rac_info = rac
     obligations = []
     for r in results:
         obligations += obligations_of(r, prop)
@@ -341,8 +338,7 @@ def main():
     out_lines = []
     exit_code = 0
     rac_viol = (rac or {}).get("violations", [])
-    rac_known = (rac or {}).get("known", [])
-    for k in rac_known:
+    for k in (rac or {}).get("known_lines", []):
         out_lines.append(f"KNOWN-FINDING: property={prop} {k}")
     replay_paths = []
     if violations or rac_viol:
@@ -417,6 +413,8 @@ def main():
                                "canaries_rejected": sum(1 for f in (r.meta or {}).get("functions", []) if f.get("canary") and not r.functions.get(f["canary"], {}).get("success", True)),
                                "flaky_obligations": r.flaky} for r in results},
             "bounded_checks": rac_info.get("bounded", []),
+            "bounded_checks_cmd": rac_info.get("cmd"),
+            "bounded_checks_note": "bounded runtime checks of the same contracts on the real compiled crates (rac): leaf contracts Verus assumes, API-level cross-checks, witness search; labelled bounded, never counted as discharged",
             "explanation": "obligations = explicit contract clauses (requires/ensures/invariant/decreases/assert) of the functions and lemmas serving this property plus one implicit-safety obligation per function; "
                            "discharged = those in functions Verus reports as verified on this run; canary copies (`ensures false`) of every contracted function must be rejected (vacuity guard)",
         },
